@@ -25,6 +25,11 @@
                      (new collection through __init__(_state): fresh serial, whose assignment leaves
                      assigned = SINCE_ANYTHING), __reduce__/__setstate__ (assigned and everything else copied).
      MakeReadOnly(r) reactorParameters.makeParametersReadOnly (r and all descendants).
+     CallRO(o,m)     every other public mutator that routes through parameters, called on a read-only (sub)tree:
+                     refused with RuntimeError and NO value of ANY parameter changes (compared on array contents).
+     WriteDb(r)      Database.writeToDB: stores the serial numbers (layout) -- nothing in the reactor changes.
+     LoadDb / LoadDbRO   Database.load / loadReadOnly: new objects carrying the STORED serial numbers; the global
+                     counter becomes max(counter, largest stored serial) (bookkeeping/db/database.py load()).
      Havoc(o,T,..)   only used by trace validation: a public mutator with side effects on several parameters of
                      several objects (Component.setTemperature): whatever it does to the objects in T is accepted,
                      nothing else may change, and the scope rules must still undo it.
@@ -49,6 +54,10 @@
        as built (one _backup slot, structuredGrid.py) and is only used to show that TLC refutes it.
      * "serial numbers are never shared by two live objects" is read literally: a pickle round trip made while
        the original is alive must not share the serial (PickleSerial = "fresh").  "kept" = as built.
+       The one sharing that is the very purpose of the stored serial is allowed: a reactor loaded from a database
+       carries the serials of the objects it was written from (`ident`); what is forbidden is that anything made
+       AFTER a load (deep copy, new object) collides with any live object -- SerialFresh, SerialsUnique,
+       SerialsBelowNext (the counter never falls behind a live serial).
      * scopes are not opened over read-only objects and MakeReadOnly is not called inside a scope (the backup
        itself is an assignment to the collection and is refused); grids are not parameters: SetGrid is not
        offered on read-only objects, so nothing is claimed about it.
@@ -76,7 +85,12 @@ CONSTANTS N,            \* object ids 1..N : originals 1..Len(Parent0), the rest
           PickleSerial, \* "fresh" | "kept"
           Parent0, Cls0,\* the original tree: parent id (0 = root) and class per original
           ParOf,        \* class -> parameters that class has
-          GridCls, MatCls  \* classes whose objects own a grid / a material
+          GridCls, MatCls, \* classes whose objects own a grid / a material
+          DbSerial,     \* "max" (Database.load keeps the serial counter above every stored AND every live serial) |
+                        \* "db" (counter := largest stored serial; only to show that TLC refutes it)
+          DbCls,        \* classes whose detached roots can be written to / loaded from a database (Reactor)
+          CopyCls,      \* classes whose objects are copied (model-checking bound; all classes in the small instances)
+          CallsOf       \* class -> names of the public mutators of the read-only family (CallRO)
 
 Node   == 1..N
 NOrig  == Len(Parent0)
@@ -91,13 +105,15 @@ VARIABLES parent, cls, live,
           val, rest, cass, cbak, dass, dbak,
           cache, cachebak, mcache, mcachebak, grid, gbak,
           frames, ro, serial, nextSerial,
+          db,       \* the database snapshot last written: objects, tree, stored serials and values
+          ident,    \* which object an object is an incarnation of (itself, or what a loaded object was written from)
           err, act,
           bad       \* names of the step properties the last step violated (always {} in a correct design)
 tree  == <<parent, cls, live>>
 pvars == <<val, rest, cass, cbak, dass, dbak>>
 cvars == <<cache, cachebak, mcache, mcachebak>>
 gvars == <<grid, gbak>>
-svars == <<serial, nextSerial>>
+svars == <<serial, nextSerial, db, ident>>
 vars  == <<tree, pvars, cvars, gvars, frames, ro, svars>>
 allvars == <<vars, err, act, bad>>
 
@@ -293,7 +309,7 @@ SetGrid(o, g) == g \in 0..(NGrid - 1) /\ o \in live /\ g # grid[o] /\ SetGridV(o
 FreeIds == Node \ live
 Copy(o, how) ==
     /\ LevelOK
-    /\ how \in Acts /\ o \in live /\ Cardinality(Under(o)) <= Cardinality(FreeIds)
+    /\ how \in Acts /\ o \in live /\ cls[o] \in CopyCls /\ Cardinality(Under(o)) <= Cardinality(FreeIds)
     /\ \E src \in {SortedSeq(Under(o))} : \E free \in {SortedSeq(FreeIds)} :
        LET k    == Len(src)
            new  == {free[i] : i \in 1..k}
@@ -314,8 +330,9 @@ Copy(o, how) ==
                                              ELSE nextSerial + ix(from(y)) - 1)
                                        ELSE serial[y]]
           /\ nextSerial' = nextSerial + k
+          /\ ident' = [y \in Node |-> IF y \in new THEN y ELSE ident[y]]
           /\ Ok([n |-> how, x |-> o, ids |-> [i \in 1..k |-> <<src[i], free[i]>>]])
-    /\ UNCHANGED <<cbak, dass, dbak, cachebak, mcachebak, gbak, frames, ro>>
+    /\ UNCHANGED <<cbak, dass, dbak, cachebak, mcachebak, gbak, frames, ro, db>>
     /\ Rec
 
 (* ---------- read-only ---------- *)
@@ -327,6 +344,64 @@ MakeReadOnly(r) ==
     /\ UNCHANGED <<tree, pvars, cvars, gvars, frames, svars>>
     /\ Ok([n |-> "MakeReadOnly", r |-> r])
     /\ Rec
+
+\* any other public mutator that routes through the parameters (changeNDensByFactor, setNumberDensities,
+\* updateNumberDensities, clearNumberDensities, setTemperature, setDimension, setMass/addMass, setType, setHeight,
+\* p.update, del p[..], copyParamsFrom ...; component and composite level) called on an object that is read-only
+\* together with everything beneath it: refused, and nothing changes -- no value of any parameter of any object
+CallRO(o, m) ==
+    /\ LevelOK
+    /\ "CallRO" \in Acts /\ o \in live /\ \A x \in Under(o) : ro[x]
+    /\ cls[o] \in DOMAIN CallsOf /\ m \in CallsOf[cls[o]]
+    /\ UNCHANGED vars
+    /\ Refused("RuntimeError", [n |-> "CallRO", o |-> o, m |-> m])
+    /\ Rec
+
+(* ---------- database (only what matters for serial numbers and read-only loading) ---------- *)
+NoDb == [has |-> FALSE, root |-> 0, objs |-> <<>>, parent |-> [o \in Node |-> 0], cls |-> [o \in Node |-> Cls0[1]],
+         serial |-> [o \in Node |-> 0], ident |-> [o \in Node |-> 0], val |-> [o \in Node |-> Zero],
+         rest |-> [o \in Node |-> 0], grid |-> [o \in Node |-> 0], max |-> 0]
+\* Database.writeToDB(r): the layout stores the serial number of every object; the reactor is not changed
+WriteDb(r) ==
+    /\ LevelOK
+    /\ "WriteDb" \in Acts /\ r \in live /\ parent[r] = 0 /\ cls[r] \in DbCls
+    /\ db' = [has |-> TRUE, root |-> r, objs |-> SortedSeq(Under(r)), parent |-> parent, cls |-> cls, serial |-> serial,
+              ident |-> ident, val |-> val, rest |-> rest, grid |-> grid, max |-> Max({serial[o] : o \in Under(r)})]
+    /\ UNCHANGED <<tree, pvars, cvars, gvars, frames, ro, serial, nextSerial, ident>>
+    /\ Ok([n |-> "WriteDb", r |-> r])
+    /\ Rec
+\* Database.load / loadReadOnly: NEW objects are built (each constructor draws a serial), they then receive the STORED
+\* serial numbers -- so a loaded object legitimately shares its serial with the object it was written from, if that
+\* is still alive (same `ident`) -- and the global counter is moved to max(counter, largest stored serial), so that
+\* nothing created afterwards can collide with ANY live object.  loadReadOnly = load + makeParametersReadOnly.
+\* useDb: the parameter values of the loaded objects are the stored ones (model checking) / those given (traces:
+\* the database round trip itself is property C04's business)
+LoadDbV(how, useDb, nval, nrest, ncass, ngrid) ==
+    /\ LevelOK
+    /\ how \in Acts /\ how \in {"LoadDb", "LoadDbRO"} /\ db.has /\ Len(db.objs) <= Cardinality(FreeIds)
+    /\ \E src \in {db.objs} : \E free \in {SortedSeq(FreeIds)} :
+       LET k    == Len(src)
+           new  == {free[i] : i \in 1..k}
+           ix(x) == CHOOSE i \in 1..k : src[i] = x
+           to(x) == free[ix(x)]
+           from(y) == src[CHOOSE i \in 1..k : free[i] = y]
+       IN /\ live'   = live \cup new
+          /\ parent' = [y \in Node |-> IF y \in new THEN (IF from(y) = db.root THEN 0 ELSE to(db.parent[from(y)])) ELSE parent[y]]
+          /\ cls'    = [y \in Node |-> IF y \in new THEN db.cls[from(y)] ELSE cls[y]]
+          /\ val'    = [y \in Node |-> IF y \in new THEN (IF useDb THEN db.val[from(y)] ELSE nval[y]) ELSE val[y]]
+          /\ rest'   = [y \in Node |-> IF y \in new THEN (IF useDb THEN db.rest[from(y)] ELSE nrest[y]) ELSE rest[y]]
+          /\ cass'   = [y \in Node |-> IF y \in new THEN (IF useDb THEN ALL ELSE ncass[y]) ELSE cass[y]]
+          /\ grid'   = [y \in Node |-> IF y \in new THEN (IF useDb THEN db.grid[from(y)] ELSE ngrid[y]) ELSE grid[y]]
+          /\ cache'  = [y \in Node |-> IF y \in new THEN 0 ELSE cache[y]]
+          /\ mcache' = [y \in Node |-> IF y \in new THEN 0 ELSE mcache[y]]
+          /\ serial' = [y \in Node |-> IF y \in new THEN db.serial[from(y)] ELSE serial[y]]
+          /\ ident'  = [y \in Node |-> IF y \in new THEN db.ident[from(y)] ELSE ident[y]]
+          /\ nextSerial' = IF DbSerial = "max" THEN Max({nextSerial + k, db.max + 1}) ELSE db.max + 1
+          /\ ro'     = [y \in Node |-> IF y \in new THEN how = "LoadDbRO" ELSE ro[y]]
+          /\ Ok([n |-> how, ids |-> [i \in 1..k |-> <<src[i], free[i]>>]])
+    /\ UNCHANGED <<cbak, dass, dbak, cachebak, mcachebak, gbak, frames, db>>
+    /\ Rec
+LoadDb(how) == LoadDbV(how, TRUE, val, rest, cass, grid)
 
 (* ---------- initial state ---------- *)
 InitWith(p0, c0) ==
@@ -342,6 +417,7 @@ InitWith(p0, c0) ==
     /\ grid = [o \in Node |-> 0] /\ gbak = [o \in Node |-> <<>>]
     /\ frames = <<>> /\ ro = [o \in Node |-> FALSE]
     /\ serial = [o \in Node |-> IF o <= n0 THEN o ELSE 0] /\ nextSerial = n0 + 1
+    /\ db = NoDb /\ ident = [o \in Node |-> o]
     /\ err = "" /\ act = [n |-> "Init"] /\ bad = {}
 Init == InitWith(Parent0, Cls0)
 
@@ -353,6 +429,9 @@ Step ==
     \/ \E o \in Node : \E g \in 0..(NGrid - 1) : SetGrid(o, g)
     \/ \E o \in Node : Copy(o, "DeepCopy") \/ Copy(o, "Pickle")
     \/ \E r \in Node : MakeReadOnly(r)
+    \/ \E o \in Node : \E m \in UNION {CallsOf[c] : c \in DOMAIN CallsOf} : CallRO(o, m)
+    \/ \E r \in Node : WriteDb(r)
+    \/ LoadDb("LoadDb") \/ LoadDb("LoadDbRO")
 
 (* =====================================  PROPERTIES  ===================================== *)
 TypeOK ==
@@ -393,7 +472,9 @@ GateSound ==
 CacheNoLeak ==
     \A o \in live : o <= NOrig => \A k \in {Covering(o)} : cache[o] <= 1 + k /\ mcache[o] <= 1 + k
 
-SerialsUnique == \A a, b \in live : a # b => serial[a] # serial[b]
+\* two live objects hold the same serial number only if they are incarnations of the same object (a reactor loaded
+\* from a database next to the reactor it was written from); in particular nothing created later collides with them
+SerialsUnique == \A a, b \in live : a # b /\ serial[a] = serial[b] => ident[a] = ident[b]
 SerialsBelowNext == \A a \in live : serial[a] < nextSerial
 
 ExitRestores          == "ExitRestores" \notin bad
@@ -432,5 +513,10 @@ Vars == [parent |-> [o \in live |-> parent[o]], cls |-> [o \in live |-> cls[o]],
          mcache |-> [o \in live |-> mcache[o]], mcachebak |-> [o \in live |-> mcachebak[o]],
          grid |-> [o \in live |-> grid[o]], gbak |-> [o \in live |-> gbak[o]],
          frames |-> [i \in 1..Len(frames) |-> [root |-> frames[i].root, keep |-> frames[i].keep]],
-         ro |-> [o \in live |-> ro[o]], serial |-> [o \in live |-> serial[o]]]
+         ro |-> [o \in live |-> ro[o]], serial |-> [o \in live |-> serial[o]], next |-> nextSerial,
+         ident |-> [o \in live |-> ident[o]],
+         db |-> [has |-> db.has, root |-> db.root, objs |-> db.objs, max |-> db.max,
+                 serial |-> [i \in 1..Len(db.objs) |-> db.serial[db.objs[i]]],
+                 val |-> [i \in 1..Len(db.objs) |-> db.val[db.objs[i]]],
+                 grid |-> [i \in 1..Len(db.objs) |-> db.grid[db.objs[i]]]]]
 =====================================================================================================
